@@ -188,6 +188,10 @@ func Cut(s, sep string) (before, after string, found bool) { return strings.Cut(
 STUB = '''// GENERATED STUB: the translator lib/vcheck/winportgen.py FAILED (%(err)s).
 package winfp
 
+import "errors"
+
+var ErrRelLoop = errors.New("winfp: stub")
+
 func fail() { panic("winfp: translator failed: " + %(qerr)s) }
 
 func Clean(path string) string                     { fail(); return "" }
